@@ -360,9 +360,11 @@ def sorted_list(eng, v, n, st, key=None):
             nm = keyf.args.args[0].arg
             saved = st.env.get(nm)
             st.env[nm] = Val(t, ty.elt)
+            eng.in_spec += 1  # the key is evaluated on a generic element: its own failures (KeyError...) are the caller's domain
             try:
                 kv = eng.ev(keyf.body, st)
             finally:
+                eng.in_spec -= 1
                 if saved is None:
                     st.env.pop(nm, None)
                 else:
